@@ -287,9 +287,19 @@ func (c *Conn) Close() {
 		return
 	}
 	c.Closed = true
-	if c.onClosed != nil {
+	if c.onClosed != nil || c.onDisconnect != nil {
+		// nats.go reports a Close as a disconnect followed by closed, both
+		// from its callback goroutine
 		c.AsyncCallbacks++
-		c.dispatch("closed", c.onClosed)
+		d, cl := c.onDisconnect, c.onClosed
+		c.dispatch("closed", func() {
+			if d != nil {
+				d()
+			}
+			if cl != nil {
+				cl()
+			}
+		})
 	}
 	for _, d := range c.Inbound {
 		d.Dropped = "closed"
